@@ -90,7 +90,7 @@ type c61Series interface {
 type c61Agg struct {
 	Sum   float64
 	Count int64
-	B     [4]int64 // histogram bucket counts 0..2, [3] = everything else
+	B     [3]int64 // histogram bucket counts 0..1, [2] = everything else
 	SumSq float64
 }
 
@@ -140,7 +140,7 @@ func (s *c61State) trigger() string {
 func (s *c61State) mkObs(idx int) timeseries.Observable {
 	if s.cfg.hist {
 		h := new(histogram)
-		h.addMeasurement(int64(1) << uint(idx%3))
+		h.addMeasurement(int64(1) << uint(idx%2)) // 1, 2, 1, 2, …: histogram buckets 0 and 1, so single-value and bucketed forms meet within three observations
 		return h
 	}
 	f := timeseries.Float(float64(uint64(1) << uint(idx)))
@@ -157,8 +157,8 @@ func (s *c61State) measure(o timeseries.Observable) c61Agg {
 		a.SumSq = v.sumOfSquares
 		a.Count = v.total()
 		add := func(i int, n int64) {
-			if i > 3 {
-				i = 3
+			if i > 2 {
+				i = 2
 			}
 			a.B[i] += n
 		}
@@ -182,11 +182,11 @@ func (s *c61State) want(lo, hi int64) c61Agg {
 			continue
 		}
 		if s.cfg.hist {
-			m := int64(1) << uint(o.idx%3)
+			m := int64(1) << uint(o.idx%2)
 			a.Sum += float64(m)
 			a.SumSq += float64(m) * float64(m)
 			a.Count++
-			a.B[o.idx%3]++
+			a.B[o.idx%2]++
 		} else {
 			a.Sum += float64(uint64(1) << uint(o.idx))
 		}
@@ -420,8 +420,8 @@ var (
 )
 
 func c61MhDepth(d int, hist bool) int {
-	if hist && d > 4 {
-		return 4
+	if hist {
+		return d - 1
 	}
 	return d
 }
@@ -443,7 +443,7 @@ func TestVerif_C61(t *testing.T) {
 		bndAdds := []int64{0, 2, -2, 128, -128, 1, 7200} // exact bucket boundaries (and one mid-bucket instant)
 		dTS := vx.Pick(c, 3, 4) // ten levels x 64 buckets: every replay allocates ~1300 objects inside the real code
 		dMH := vx.Pick(c, 4, 5)
-		c.Rule(fmt.Sprintf("depth-bounded search (TimeSeries depth %d, MinuteHourSeries depth %d; with the histogram observable MinuteHourSeries depth 4) over every sequence of AddWithTime(2^i, t) for the i-th observation with t = R ± {0.5 s, 1.5 s, 63.5 s (59.5 s), 64.5 s (60.5 s), 70.5 s, 1 h+0.5 s, 200 d+0.5 s} (R a boundary of every level; mid-bucket instants, in and out of order, far past and far future), Total, {clock := R + 0.5 s|63.5 s|70.5 s|1 h; Latest/LatestBuckets of every level}, Clear, on TimeSeries and MinuteHourSeries with a harness clock, each with Float and with trace's histogram as Observable; after every history: Total, and for every level the whole retained window (one value, one value per bucket, two halves) and the aligned ranges around every bucket holding an observation, compared with the list of (time, value) pairs; non-trivial = history whose final range questions were all asked and compared", dTS, dMH))
+		c.Rule(fmt.Sprintf("depth-bounded search (TimeSeries depth %d, MinuteHourSeries depth %d; with the histogram observable MinuteHourSeries one less) over every sequence of AddWithTime(2^i, t) for the i-th observation with t = R ± {0.5 s, 1.5 s, 63.5 s (59.5 s), 64.5 s (60.5 s), 70.5 s, 1 h+0.5 s, 200 d+0.5 s} (R a boundary of every level; mid-bucket instants, in and out of order, far past and far future), Total, {clock := R + 0.5 s|63.5 s|70.5 s|1 h; Latest/LatestBuckets of every level}, Clear, on TimeSeries and MinuteHourSeries with a harness clock, each with Float and with trace's histogram as Observable; after every history: Total, and for every level the whole retained window (one value, one value per bucket, two halves) and the aligned ranges around every bucket holding an observation, compared with the list of (time, value) pairs; non-trivial = history whose final range questions were all asked and compared", dTS, dMH))
 		c.Rule("boundary part: the same search with observation instants exactly on bucket boundaries, Total only")
 		c.Assume("bucket b of a level with resolution s ending at e holds the observations with e-s < t <= e, e = the latest instant seen (observation or clock at Latest) rounded up to s; observation instants exactly on a boundary are used for Total only")
 		c.Assume("ranges whose start or end is not on a bucket boundary of the level that answers them, or that start before that level's retained window, are documented as approximate and are not asked; ScaleBy, Recent and RecentList are not exercised")
